@@ -259,6 +259,12 @@ class Evaluator:
                 raise Inconclusive("% by a non power of two")
             if isinstance(op, ast.BitOr):
                 l, r = self.ev(e.left), self.ev(e.right)
+                # x | c with the bits of c free in x (x a multiple of 2**k, c < 2**k): x + c
+                for a, b in ((l, r), (r, l)):
+                    if b.is_const() and b.const >= 0 and not a.is_const():
+                        k = b.const.bit_length()
+                        if a.const % (1 << k) == 0 and a._low_free(k):
+                            return a + b
                 # OR of disjoint placements is their sum
                 pl, pr = l._placement(), r._placement()
                 if set(pl) & set(pr):
